@@ -19,6 +19,11 @@ CLAIMS = {
         ref="DESIGN.md section 4 C18"),
 }
 
+CLAIMS["C11"] = dict(
+    text="Proof (unbounded, every operand pair, 64-bit exact integers, IEEE floats in the SMT FP theory) that Arith, Mod, Relational, Logic, Shift, Flip, Not, Len, Index, Eq, WeakEq (non-array operands and shallow array facts) and StrictEq return exactly the documented result or the documented error (nil before type error, int/float promotion, truncating division, zero-division for / and %, index bounds), stated over the whole result (kind, payload, error identity). Algebraic laws (== symmetric, int equals its float, < > <= >= mutually consistent incl. NaN, slice length, split/concat identity, concat length) are lemmas over the spec functions only.",
+    note="Oracle: spec functions written from the Readme tables in the contract file. Not decided: equality of nested arrays beyond 'different length => unequal' (needs a recursive spec function; the element-wise comparison loop is verified only for panic-freedom and error propagation). String facts rest on the assumed string algebra axioms (length/concat/substring) listed in the evidence. Shifts: oracle is Go's shift with unsigned count (Readme says only 'bitshift').",
+    ref="DESIGN.md section 4 C11")
+
 NA_DEFAULT = "engine stage not reached: contract designed (DESIGN.md section 4) but its obligations are not discharged by the engine as built, so nothing is claimed"
 
 props = [json.loads(l) for l in open("/verif/properties.jsonl")]
